@@ -347,7 +347,7 @@ class TypeDB:
             if c is None:
                 continue
             for b in self.w.class_bases(c):
-                if b.startswith("ext:") and b.rsplit(".", 1)[-1] in ("Exception", "ValueError", "KeyError", "IndexError", "BaseException", "TypeError", "RuntimeError"):
+                if (b.startswith("ext:") or b.startswith("?")) and b.lstrip("?").rsplit(".", 1)[-1] in ("Exception", "ValueError", "KeyError", "IndexError", "BaseException", "TypeError", "RuntimeError"):
                     return True
         return False
 
